@@ -292,9 +292,12 @@ func c08JBIG2Segments(r *kit.Rand) []byte {
 		out = append(out, be32(num)...)
 		out = append(out, typ&0x3f)
 		if len(refs) > 4 {
-			refs = refs[:4]
+			// long form: 29-bit count, then one retain bit per referred segment and one for this one
+			out = append(out, be32(0xE0000000|uint32(len(refs)))...)
+			out = append(out, make([]byte, (len(refs)+1+7)/8)...)
+		} else {
+			out = append(out, byte(len(refs))<<5|byte(r.Intn(32)))
 		}
-		out = append(out, byte(len(refs))<<5|byte(r.Intn(32)))
 		for _, ref := range refs {
 			switch {
 			case num <= 256:
@@ -327,6 +330,33 @@ func c08JBIG2Segments(r *kit.Rand) []byte {
 		b = append(b, be32(uint32(r.Intn(3)))...)
 		b = append(b, be32(uint32(r.Intn(3)))...)
 		return append(b, byte(r.Intn(5)))
+	}
+	if r.Chance(1, 40) {
+		// a text region whose list of referred segments is very long: two empty
+		// symbol dictionaries, the second one referring to thousands of segments,
+		// and a text region without instances referring to both thousands of times
+		n := kit.Pick(r, []int{1000, 6000, 6000})
+		segment(0, 48, nil, 1, append(append(be32(1), be32(1)...), make([]byte, 11)...))
+		segment(1, 0, nil, 1, make([]byte, 18))
+		many := make([]uint32, n)
+		for i := range many {
+			many[i] = 7 // a segment that does not exist
+		}
+		segment(2, 0, many, 1, make([]byte, 18))
+		refs := make([]uint32, n)
+		for i := range refs {
+			refs[i] = 1
+			if i >= n/2 {
+				refs[i] = 2
+			}
+		}
+		tr := append(append(be32(1), be32(1)...), make([]byte, 9)...) // region info 1x1 at (0,0)
+		tr = append(tr, 0, 0)                                         // text region flags
+		tr = append(tr, 0xff, 0xff, 0xff, 0xff)[:17+2]                // (no refinement AT)
+		tr = append(tr, be32(0)...)                                   // no instances
+		segment(4, 6, refs, 1, tr)
+		segment(5, 49, nil, 1, nil)
+		return out
 	}
 	num := uint32(0)
 	if r.Chance(1, 20) {
